@@ -332,6 +332,8 @@ def run(ctx):
     res.rule("I2-CONSTRUCT", m)
     from rules import hist
     hist.run(ctx, res, 'C02')       # composition: histories through the public API against the reference model (rules/hist.py)
+    from rules import scale
+    scale.run(ctx, res, 'C02')      # the same on graphs whose collections have the sizes the tree names (rules/scale.py)
     hist.run_sequences(ctx, res, "C02", "universes", 4, small=not ctx.thorough)      # every sequence of up to four membership calls from either side
     common.vacuity(res, "SEQUENCE", 8000)
     common.vacuity(res, "HISTORY", 6000)
